@@ -154,6 +154,43 @@ func TestVerifC06(t *testing.T) {
 				}
 			}
 		}
+		// (A2) the same through a history: pages that were mapped writable (and possibly unmapped)
+		// before are re-mapped to the zero frame read-only / copy-on-write, as sysReserve does
+		for i := 0; i < 6; i++ {
+			va := vmCanon(uintptr(r.PickInt([]int{2, 301})), uintptr(r.Intn(3)), uintptr(r.Intn(3)), uintptr(r.Intn(512)))
+			tgt := active
+			if r.Chance(1, 3) {
+				tgt = other
+			}
+			pre := PageTableEntryFlag(r.U64())&(FlagRW|FlagNoExecute|FlagUserAccessible|FlagGlobal|FlagDirty|FlagAccessed) | FlagPresent | FlagRW
+			if err := tgt.Map(mm.PageFromAddress(va), mm.Frame(c04GenFrame(r)), pre); err != nil {
+				c.Violationf("setup-map-failed", "%v", err)
+				return
+			}
+			if r.Bool() {
+				_ = tgt.Unmap(mm.PageFromAddress(va))
+			}
+			fl := FlagPresent | FlagCopyOnWrite
+			if r.Bool() {
+				fl = FlagPresent
+			}
+			if err := tgt.Map(mm.PageFromAddress(va), zero, fl); err != nil {
+				c.Violationf("zero-frame-readonly-map-failed", "re-mapping a page to the zero frame without RW returned %v", err)
+				return
+			}
+			run.Count("zero_frame_remaps_over_earlier_writable_mappings", 1)
+		}
+		// invariant over every address space: no present entry gives write access to the zero frame
+		for _, root := range []uintptr{m.cr3, other.pdtFrame.Address()} {
+			leaves, _, _, _ := m.enumerate(root)
+			for _, lf := range leaves {
+				if mm.Frame((lf.entry&vmPhysMask)>>12) == zero && lf.entry&uint64(FlagRW) != 0 {
+					c.Violationf("zero-frame-mapped-writable", "page %#x maps the reserved zero frame with the writable bit set (entry %#x) although every request asked for a read-only mapping", lf.va, lf.entry)
+					return
+				}
+				run.Count("leaves_checked_for_writable_zero_frame", 1)
+			}
+		}
 		if sigs, msgs := m.takeProblems(); len(sigs) > 0 {
 			c.Violationf(sigs[0], "%s", msgs[0])
 			return
